@@ -60,21 +60,21 @@ struct Opt { bool set; std::string v; };
 const std::vector<Opt>& tzdir_opts() { static std::vector<Opt> v = {{false, ""}, {true, ""}, {true, "/sim/zi"}, {true, "/sim/missing"}, {true, "/sim/zi/"}, {true, "relative/dir"}}; return v; }
 const std::vector<Opt>& tz_opts() {
   static std::vector<Opt> v = {{false, ""}, {true, ""}, {true, "X"}, {true, ":X"}, {true, "::X"}, {true, "localtime"}, {true, ":localtime"}, {true, ":"},
-                               {true, "No/Such"}, {true, "/abs/zone"}, {true, "Fixed/UTC+03:00:00"}, {true, "UTC"}, {true, "file:X"}, {true, ":Leap"}};
+                               {true, "No/Such"}, {true, "/abs/zone"}, {true, "Fixed/UTC+03:00:00"}, {true, "UTC"}, {true, "file:X"}, {true, ":TruncNL"}};
   return v;
 }
 const std::vector<Opt>& lt_opts() { static std::vector<Opt> v = {{false, ""}, {true, "/abs/lt"}, {true, "/abs/missing"}, {true, ""}, {true, "Dir/Y"}}; return v; }
 const std::vector<std::string>& name_opts() {
   static std::vector<std::string> v = {"X", "Dir/Y", "No/Such", "/abs/zone", "/abs/missing", "file:X", "file:/abs/zone", "file:", "file:file:X", "", ":X", "UTC", "UTC0",
                                        "Fixed/UTC+05:30:00", "Fixed/UTC+25:00:00", "fixed/utc+01:00:00", "ADir", "NoPerm", "Trunc", "Leap", "BadMagic", "Empty", "V1", "Real",
-                                       "X/", "./X", "localtime", "Dir", "Fixed/UTC-00:00:00", "Fixed/UTC+24:00:00", "file:UTC", "/etc/localtime", "file:No/Such", "Dir//Y"};
+                                       "X/", "./X", "localtime", "Dir", "Fixed/UTC-00:00:00", "Fixed/UTC+24:00:00", "file:UTC", "/etc/localtime", "file:No/Such", "Dir//Y", "MarkF", "TruncNL", "TruncFooter"};
   return v;
 }
 
 void standard_tree(C19Case* c) {
   int id = 1;
   auto add = [&](const std::string& path, const std::string& kind, const std::string& content) {
-    FsSpec f; f.path = path; f.kind = kind; f.content = content; f.marker = (content.compare(0, 6, "marker") == 0) ? id++ : 0;
+    FsSpec f; f.path = path; f.kind = kind; f.content = content; f.marker = (content.compare(0, 6, "marker") == 0 || content.compare(0, 6, "truncf") == 0) ? id++ : 0;
     c->fs.push_back(f);
   };
   for (const std::string d : {std::string(kDefaultDir), std::string("/sim/zi"), std::string("relative/dir")}) {
@@ -98,6 +98,9 @@ void standard_tree(C19Case* c) {
     add(d + "/Real", "reg", "shipped:America/New_York");
     add(d + "/localtime", "reg", "marker");
     add(d + "/UTC", "reg", "marker");   // must never be consulted for the name "UTC"; reachable as file:UTC
+    add(d + "/MarkF", "reg", "markerf");        // marker zone with a non-empty footer
+    add(d + "/TruncNL", "reg", "truncf:1");     // ... whose closing newline is missing
+    add(d + "/TruncFooter", "reg", "truncf:4"); // ... cut in the middle of the footer
   }
   add("/abs", "dir", "");
   add("/abs/zone", "reg", "marker");
@@ -111,6 +114,13 @@ std::string content_bytes(const FsSpec& f) {
   const std::string& c = f.content;
   char abbr[16];
   snprintf(abbr, sizeof abbr, "P%04d", f.marker);
+  if (c == "markerf" || c.compare(0, 7, "truncf:") == 0) {
+    TzData d = marker_zone(abbr, f.marker * 60, '2');
+    d.footer = std_footer_for(abbr, f.marker * 60);
+    std::string m = write_tzif(d);
+    if (c != "markerf") { size_t n = static_cast<size_t>(atoi(c.c_str() + 7)); m.resize(m.size() > n ? m.size() - n : 0); }
+    return m;
+  }
   if (c.compare(0, 6, "marker") == 0) {
     char ver = '2';
     if (c.size() > 7) ver = c[7] == '1' ? '\0' : c[7];
@@ -130,7 +140,7 @@ std::string content_bytes(const FsSpec& f) {
   return m;
 }
 bool content_valid(const FsSpec& f) {  // validity known by construction, never by asking cctz
-  return f.kind == "reg" && (f.content.compare(0, 6, "marker") == 0 || f.content.compare(0, 8, "shipped:") == 0);
+  return (f.kind == "reg" || f.kind == "fifo") && (f.content.compare(0, 6, "marker") == 0 || f.content.compare(0, 8, "shipped:") == 0);
 }
 
 const int64_t kCross = 6 * 14 * 5;
